@@ -93,6 +93,27 @@ Theorem C12_end_releases_all_refuted_listener_startup :
 Proof. vm_compute. split; reflexivity. Qed.
 Print Assumptions C12_end_releases_all_refuted_listener_startup.
 
+(* the F5 hole is a property of ONE fact (Gen.Workers.passive_giveback): for every configuration in which the
+   port is returned when the start-up is cancelled, ending the session before the bind releases everything *)
+Theorem C12_startup_hole_closed_by_giveback : forall F st,
+  sound12 F = true -> c_giveback F = true -> state_ok F st = true -> lst (ss st) = LTaking ->
+  hole_free F {| ss := set_lst (ss st) LNone; ws := ws st |} = true ->
+  ledger_empty (ledger F (unwind F (end_session F st))) = true.
+Proof. exact startup_hole_closed_by_giveback. Qed.
+Print Assumptions C12_startup_hole_closed_by_giveback.
+
+(* non-vacuity: today's facts with only that fact changed satisfy the hypotheses at [Greet; Login; Pasv] *)
+Definition genF_giveback : cfg :=
+  {| c_retr := c_retr genF; c_stor := c_stor genF; c_list := c_list genF; c_mlsd := c_mlsd genF;
+     c_cancel_codes := c_cancel_codes genF; c_abor := c_abor genF; c_task_exc := c_task_exc genF;
+     c_outer_exc := c_outer_exc genF; c_fin := c_fin genF; c_giveback := true |}.
+Example C12_giveback_nonvacuous :
+  let st := fst (run genF_giveback (init true) [Greet; Login; Pasv]) in
+  sound12 genF_giveback = true /\ state_ok genF_giveback st = true /\ lst (ss st) = LTaking
+  /\ hole_free genF_giveback {| ss := set_lst (ss st) LNone; ws := ws st |} = true
+  /\ ledger genF_giveback (unwind genF_giveback (end_session genF_giveback st)) = [0;0;0;0;0;0;0;0;0;0]%Z.
+Proof. vm_compute. repeat split; reflexivity. Qed.
+
 Theorem C12_end_releases_all_refuted : ~ end_releases_all.
 Proof.
   intros H.
